@@ -31,6 +31,7 @@ def run(tier, replay=None):
     fams.append(props.cross_sample(tier, seed))
     fams.append(props.c01_rebinding(tier, seed))
     fams.append(props.float_chains(tier, seed))
+    fams.append(props.c01_selfcompare(tier, seed))
     vs = semcheck.run_families(ck, fams, nontrivial)
     semcheck.binding_selftest(ck, vs)
     semcheck.symbolic_float_selftest(ck, vs)
